@@ -61,7 +61,9 @@ func fixedTables() []table {
 			{3, "h.test", "/", "bob", "", "", true},            // user-routed, unprotected
 			{4, "h.test", "", "alice", "alice", "apw", true},   // location "" (what a proxy without locations registers): CONNECT reaches it
 			{5, "h.test", "", "", "", "", true},
-		}, targets: []target{{"h.test", "/", ""}, {"H.Test:8080", "/admin/x", "other.test"}}},
+		}, targets: []target{{"h.test", "/", ""}, {"H.Test:8080", "/admin/x", "other.test"},
+			// CanonicalHost strips one trailing dot: "h.test.." is canonically "h.test.", a host without routes
+			{"h.test..", "/admin/x", ""}}},
 		{name: "user-routed-only", routes: []route{
 			{0, "h.test", "/", "alice", "alice", "apw", true},
 			{1, "h.test", "/", "bob", "bob", "bpw", true},
